@@ -239,6 +239,10 @@ def cases_for(tier, s):
         R.append({"mode": "sumfact", "recipe": {"b": "tp_forms", "cell": cell, "tpmesh": True, "p": {"which": "advection", "degree": 2}}, "option_sets": SF})
         R.append({"mode": "sumfact", "recipe": {"b": "tp_forms", "cell": cell, "tpmesh": True, "p": {"which": "linear", "degree": 2}}, "option_sets": SF})
         R.append({"mode": "sumfact", "recipe": {"b": "tp_forms", "cell": cell, "tpmesh": True, "p": {"which": "functional", "degree": 1}}, "option_sets": SF})
+        # two different 1-D bases of the same degree in one integral (table reuse must compare values, not shapes)
+        for d_ in (3, 4) if cell == "quadrilateral" else (3,):
+            R.append({"mode": "sumfact", "recipe": {"b": "tp_two_variants", "cell": cell, "tpmesh": True, "p": {"degree": d_, "arity": 1}}, "option_sets": SF})
+        R.append({"mode": "sumfact", "recipe": {"b": "tp_two_variants", "cell": cell, "tpmesh": True, "p": {"degree": 3, "arity": 2}}, "option_sets": SF})
         # standard (non tensor-product) elements on the same cells
         R.append({"mode": "sumfact", "recipe": {"b": "stiff_nl", "cell": cell, "p": {"degree": 1}}, "option_sets": SF})
     # ---- diagonal
